@@ -8,7 +8,18 @@ import (
 )
 
 func validateMaps(env *Environment, errorSink *validation.ErrorSink) *Environment {
+	if len(errorSink.Errors) > 0 {
+		// Only perform this if all types are resolved
+		return env
+	}
+
 	Visit(env, func(self Visitor, node Node) {
+		if st, ok := node.(*SimpleType); ok && st.ResolvedDefinition != nil &&
+			len(st.ResolvedDefinition.GetDefinitionMeta().TypeArguments) > 0 {
+			// Check the referenced type with the type arguments provided
+			self.Visit(st.ResolvedDefinition)
+		}
+
 		m, ok := node.(*Map)
 		if !ok {
 			self.VisitChildren(node)
@@ -18,7 +29,10 @@ func validateMaps(env *Environment, errorSink *validation.ErrorSink) *Environmen
 		t := GetUnderlyingType(m.KeyType)
 		if st, ok := t.(*SimpleType); ok {
 			switch st.ResolvedDefinition.(type) {
-			case nil, PrimitiveDefinition:
+			case PrimitiveDefinition:
+				return
+			case *GenericTypeParameter:
+				// checked where the generic type is given type arguments
 				return
 			}
 		}
